@@ -106,6 +106,21 @@ CHECK_DEADLOCK FALSE
 
 # ------------------------------------------------------------------ replay
 
+UNCERT = []          # scenario class of the spec (LogUnitsGen header): [(kind, amount)]
+
+
+def check_uncertain(u, v, xs, exps, rel, abs_):
+    """a source that carries abse / rele: the converted VALUE is the conversion of the exact value"""
+    nobs = 0
+    for kind, amount in UNCERT:
+        for x, e in list(zip(xs, exps))[:4] + ([(list(xs[:4]), list(exps[:4]))] if len(xs) > 1 else []):
+            r = A.conv_uncertain(x, u, v, kind, amount); nobs += 2
+            if r[0] != "val" or not A.close(r[1], e, rel, abs_) or not A.close(r[2], e, rel, abs_):
+                return ("violation", "value_depends_on_error", {"expected": e, "observed": r[1:], "x": x, "uncertainty": [kind, amount],
+                                                                "clause": "the value converted from a quantity with an uncertainty is the conversion of the exact value"}, nobs)
+    return ("ok", None, None, nobs)
+
+
 def check_pair(u, v, xs, exps, rel, abs_, optional=False):
     """value() and to() for each x (scalars), then one array; -> (status, failure, detail, nobs)"""
     nobs = 0
@@ -182,6 +197,9 @@ def replay_temp(job):
     st, failure, det, nobs = check_pair(u, v, xs, exps, 1e-9, 1e-9)
     if st == "ok" and all(r["mach_ok"] for r in recs):
         st, failure, det, n2 = accessor_path(u, v, xs[:3], exps[:3], 1e-9, 1e-9); nobs += n2
+    if st == "ok" and all(r["mach_ok"] for r in recs):
+        k = len(xs) // 2
+        st, failure, det, n2 = check_uncertain(u, v, xs[k:k + 4], exps[k:k + 4], 1e-9, 1e-9); nobs += n2
     if st == "ok":
         rt = round_trip(u, v, xs, 1e-9, 1e-9); nobs += len(xs)
         if rt[0] == "violation":
@@ -218,6 +236,9 @@ def replay_log(rec):
     st, failure, det, nobs = check_pair(u, v, xs, exps, rel, abs_, optional=rec["optional"])
     if st == "ok" and not rec["optional"]:
         st, failure, det, n2 = accessor_path(u, v, xs[:3], exps[:3], rel, abs_); nobs += n2
+    if st == "ok" and not rec["optional"]:
+        k = len(rec["lattice"])                     # two lattice points and two off-lattice inputs
+        st, failure, det, n2 = check_uncertain(u, v, xs[max(0, k - 2):k + 2], exps[max(0, k - 2):k + 2], rel, abs_); nobs += n2
     if st == "ok":
         # a linear magnitude must come back relatively exact (it may be 1e-20); a level may be 0
         rt = round_trip(u, v, xs, max(rel, 1e-9), 0.0 if rec["positive"] else 1e-9); nobs += len(xs)
@@ -252,7 +273,13 @@ def replay_sum(rec):
                 q = s0 + s0
                 args = (sv, sv)
             else:
-                q = (Quantity(x, u) + Quantity(y, u)) if rec["sign"] > 0 else (Quantity(x, u) - Quantity(y, u))
+                qa, qb = Quantity(x, u), Quantity(y, u)
+                q = (qa + qb) if rec["sign"] > 0 else (qa - qb)
+                # the operands are quantities like any other: the same two objects combine to the same level again
+                q_again = (qa + qb) if rec["sign"] > 0 else (qa - qb)
+                if not A.close(float(q_again.magnitude.value), float(q.magnitude.value), 1e-12, 1e-12) and np.isfinite(float(q.magnitude.value)):
+                    return ("violation", "wrong_value", {"expected": float(q.magnitude.value), "observed": float(q_again.magnitude.value), "x": [x, y], "operands": "used twice",
+                                                         "clause": "a (+-) b of the same two operands gives the same level the second time"}, nobs + 2)
                 args = (x, y)
             got = float(q.magnitude.value); unit = q.baseunits.expression; nobs += 1
         except Exception as ex:
@@ -302,6 +329,31 @@ def run(replay=None):
         V.notes.append(f"TLC: {r1.violated} fails on the temperature model: " + r1.cex[:500])
         r1e = C.run_tlc(wd, "TempMC", strip_lemmas(temp_cfg(devs)))          # all records, lemmas aside
         r1.records = r1e.records
+    # 2. logarithmic units
+    log_mc(wd)
+    r2 = C.run_tlc(wd, "LogMC", log_cfg(devs))
+    states += r2.distinct; trans += r2.generated
+    if r2.violated:
+        V.notes.append(f"TLC: {r2.violated} fails on the logarithmic-unit model (code table vs documented definitions): " + r2.cex[:700])
+        # the lattice lemma failing means the code's table contradicts the documented definitions; the replay
+        # below shows it through the API on the same pairs (all records, lemmas aside)
+        r2e = C.run_tlc(wd, "LogMC", strip_lemmas(log_cfg(devs)))
+        r2.records = r2e.records
+    hdr = [x for x in r2.records if x.get("st") == "header"]
+    if not hdr:
+        raise C.MachineryError("LogUnitsGen emitted no header record")
+    UNCERT[:] = [(k, float(A.ev(t, replay_log.tabs))) for k, t in hdr[0]["uncertainties"]]
+    # history: a unit environment that declares custom units with the BUILT-IN conversion types was opened and
+    # closed earlier in this process; the built-in conversions below must still be the ones of the property
+    try:
+        from scinumtools.units import UnitEnvironment
+        from scinumtools.units.unit_types import TemperatureUnitType, LogarithmicUnitType
+        with UnitEnvironment({"vfyT": {"magnitude": 1, "dimensions": [0, 0, 0, 1, 0, 0, 0, 0], "definition": TemperatureUnitType},
+                              "vfyL": {"magnitude": 1, "dimensions": [0, 0, 0, 0, 0, 0, 0, 0], "definition": LogarithmicUnitType}}):
+            pass
+        V.assumptions.append("a UnitEnvironment with custom units of TemperatureUnitType / LogarithmicUnitType was opened and closed before the replay")
+    except Exception as e:
+        V.notes.append("unit environment with built-in conversion types could not be opened: " + repr(e)[:120])
     pairs = {}
     for x in r1.records:
         pairs.setdefault((x["u"], x["v"]), []).append(x)
@@ -322,16 +374,6 @@ def run(replay=None):
         else:
             V.ok(len(recs))
     samples += [{k: x[k] for k in ("u", "v", "x", "expect", "tags")} for x in r1.records[40:42]]
-    # 2. logarithmic units
-    log_mc(wd)
-    r2 = C.run_tlc(wd, "LogMC", log_cfg(devs))
-    states += r2.distinct; trans += r2.generated
-    if r2.violated:
-        V.notes.append(f"TLC: {r2.violated} fails on the logarithmic-unit model (code table vs documented definitions): " + r2.cex[:700])
-        # the lattice lemma failing means the code's table contradicts the documented definitions; the replay
-        # below shows it through the API on the same pairs (all records, lemmas aside)
-        r2e = C.run_tlc(wd, "LogMC", strip_lemmas(log_cfg(devs)))
-        r2.records = r2e.records
     precs = [x for x in r2.records if x.get("st") in ("pair", "frac")]
     srecs = [x for x in r2.records if x.get("st") == "sum"]
     res = C.pmap(replay_log, precs)
